@@ -18,7 +18,8 @@ for d in sorted(glob.glob(os.path.join(root, "C*"))):
     blind = None
     for lg in sorted(glob.glob(os.path.join(d, "blind_check_*.log"))):
         txt = open(lg, errors="replace").read()
-        blind = dict(check_version="/verif commit a1e1af9 (before any round-3 report existed)", log=os.path.basename(lg),
+        rnd4 = mid[-1] in "GH"
+        blind = dict(check_version=("/verif commit 5240e24 (before any round-4 report existed)" if rnd4 else "/verif commit a1e1af9 (before any round-3 report existed)"), log=os.path.basename(lg),
                      detected=bool(re.findall(r"^VIOLATION property=", txt, re.M)))
     meta = dict(
         id=mid,
